@@ -937,6 +937,8 @@ class Attrs(Family):
                         yield dict(kind='assign', ops=base + [['set', 0, p, a, v], ['to_bytes', 0]])
             for a in ['bogus', 'lenght', 'diff', 'preamble_bogus']:
                 yield dict(kind='ctor', ops=[['new', [[a, {'s': 'x'}]]], ['new', []], ['add_change', 0, [[a, {'s': 'x'}]]]])
+                if a != 'diff':
+                    yield dict(kind='ctor', ops=[['new', []], ['add_change', 0, []], ['add_file', 0, 0, [[a, {'s': 'x'}]]]])
             # single-field perturbations: two copies of the same tree, perturb one, compare
             for p, names in (('main', ATTRS_MAIN), (['c', ci], ATTRS_CHANGE), (['f', ci, fi], ATTRS_FILE)):
                 for a in names:
@@ -967,6 +969,15 @@ class Attrs(Family):
     def oracle(self, c, obs):
         out = Alias.oracle(self, c, obs)
         obs_s, steps, orc = self._impl(c)
+        # unknown constructor attributes are rejected (on the root object, a change and a file alike)
+        known = {'new': set(ATTRS_MAIN), 'add_change': set(ATTRS_CHANGE), 'add_file': set(ATTRS_FILE)}
+        for o, st in zip(c['ops'], steps):
+            if o[0] in known:
+                kws = o[1] if o[0] == 'new' else (o[2] if o[0] == 'add_change' else o[3])
+                bad = [k for k, _ in kws if k not in known[o[0]]]
+                if bad and st[0] != '(exc)' and st[0] != 'bad-index':
+                    out.append(('C19', 'unknown-constructor-attribute-accepted',
+                                '%s(%s=...) was accepted' % ({'new': 'DiffX', 'add_change': 'add_change', 'add_file': 'add_file'}[o[0]], bad[0])))
         # equal trees serialise to identical bytes
         if c['kind'].startswith('perturb') and not out:
             eqs = [s[0] for o, s in zip(c['ops'], steps) if o[0] == 'eq']
